@@ -104,6 +104,9 @@ def _select_is_exhaustive(arg, conds) -> bool:
     if isinstance(val, enum.Enum):
         return {cond for cond in conds} == set(type(val))
 
+    if isinstance(val, (bool, _Boolean)):
+        return {bool(cond) for cond in conds} == {True, False}
+
     return False
 
 
